@@ -89,9 +89,9 @@ func c14Values(c *Ctx) {
 			},
 			Why: map[string]string{
 				"[].Length": "the emitted length is not a whole number of bytes",
-				"[].LocalTimeOffset.Items[].LocalTimeOffset": "BCD hours/minutes arithmetic (value-level, see C15: not decidable statically); only the 16 bits' position is covered by the consumption check",
-				"[].LocalTimeOffset.Items[].NextTimeOffset":  "BCD hours/minutes arithmetic (see C15)",
-				"[].LocalTimeOffset.Items[].TimeOfChange":    "MJD/BCD calendar arithmetic (see C15)",
+				"[].LocalTimeOffset.Items[].LocalTimeOffset": "BCD hours/minutes arithmetic: the value is decided by the G3 rules of C15 (run below); here only the 16 bits' position is covered",
+				"[].LocalTimeOffset.Items[].NextTimeOffset":  "BCD hours/minutes arithmetic: decided by the G3 rules of C15 (run below)",
+				"[].LocalTimeOffset.Items[].TimeOfChange":    "MJD/BCD calendar arithmetic: decided by the G1/G2/G4 rules of C15 (run below)",
 				"[].MaximumBitrate.Bitrate":                  "the 22-bit maximum_bitrate chunk could not be located",
 				"[].Teletext.Items[].Page":                   "the page number is split into a magazine number and two BCD digits (arithmetic)",
 				"[].VBITeletext.Items[].Page":                "the page number is split into a magazine number and two BCD digits (arithmetic)",
@@ -104,4 +104,9 @@ func c14Values(c *Ctx) {
 	for _, d := range ck.IP.Diag {
 		r.Unknown("A0", "diag/values/"+d, "", d)
 	}
+	// the local_time_offset descriptor carries two hh:mm BCD offsets and an MJD + hh:mm:ss time of change: their widths
+	// and positions are decided above, their VALUES (both directions) by the numeric rules of C15
+	decodeDate(c)
+	encodeDate(c)
+	bcd(c)
 }
